@@ -174,7 +174,91 @@ func c15ReadFull(conn net.Conn, buf []byte, chunk int) (int, error) {
 	return got, nil
 }
 
-var c15Servers = []string{"never-accepts", "silent", "partial-prompt", "garbage-no-cr", "callsign-then-silence", "closes-at-once", "dribbles", "callsign-password-then-silence", "wrong-prompts"}
+// c15Two: two sessions overlap on one listener. The first accepted connection is read only after the
+// second login has completed: whatever the listener keeps per login must not be shared between them.
+func c15Two(sc c15Scn, o *c15Obs) func() {
+	return func() {
+		*o = c15Obs{}
+		seg, _ := c15Seg(sc.Seg, 0)
+		ln, err := telnet.Listen(c15Addr)
+		if err != nil {
+			panic(err)
+		}
+		vnet.OnPipe = func(cl, sv *vnet.TCPConn) {
+			sv.SetReadSeg(seg)
+			cl.SetReadSeg(seg)
+		}
+		calls := [2]string{"N0AAA", "N0BBB-7"}
+		pay := func(i int, dir string) []byte {
+			return append([]byte(fmt.Sprintf("[%s %s] ", calls[i], dir)), c15Payload(sc.PayloadC)...)
+		}
+		accepted := 0
+		var got [2][]byte
+		var rcalls [2]string
+		clientsDone := 0
+		vs.GoNamed("server", true, func() {
+			var conns [2]net.Conn
+			for i := 0; i < 2; i++ {
+				c, err := ln.Accept()
+				if err != nil {
+					o.acceptErr = err
+					return
+				}
+				conns[i] = c
+				if rc, ok := c.(interface{ RemoteCall() string }); ok {
+					rcalls[i] = rc.RemoteCall()
+				}
+				accepted++
+			}
+			for i := 0; i < 2; i++ {
+				buf := make([]byte, len(pay(i, "up")))
+				n, err := c15ReadFull(conns[i], buf, sc.Read)
+				got[i] = buf[:n]
+				if err != nil {
+					o.postErr = fmt.Sprintf("server read on connection %d: %v", i, err)
+				}
+				if _, err := conns[i].Write(pay(i, "down")); err != nil {
+					o.postErr = "server write: " + err.Error()
+				}
+			}
+			o.serverDone = true
+		})
+		for i := 0; i < 2; i++ {
+			i := i
+			vs.GoNamed(fmt.Sprintf("client-%d", i), true, func() {
+				// the second client dials when the first login is complete (accept order = client order)
+				vs.WaitUntil("earlier login complete", func() bool { return accepted >= i })
+				conn, err := telnet.DialTimeout(c15Addr, calls[i], "pw", 400*time.Millisecond)
+				if err != nil {
+					o.dialErr = err
+					clientsDone++
+					return
+				}
+				if _, err := conn.Write(pay(i, "up")); err != nil {
+					o.postErr = "client write: " + err.Error()
+				}
+				buf := make([]byte, len(pay(i, "down")))
+				n, err := c15ReadFull(conn, buf, sc.Read)
+				if err != nil || !bytes.Equal(buf[:n], pay(i, "down")) {
+					o.postErr = fmt.Sprintf("client %d read %q (%v), the server sent %q", i, core.Trunc(string(buf[:n]), 40), err, core.Trunc(string(pay(i, "down")), 40))
+				}
+				clientsDone++
+			})
+		}
+		o.returned = true
+		vs.WaitUntil("all done", func() bool { return o.serverDone && clientsDone == 2 || o.acceptErr != nil && clientsDone == 2 })
+		for i := 0; i < 2; i++ {
+			if o.postErr == "" && o.serverDone && !bytes.Equal(got[i], pay(i, "up")) {
+				o.postErr = fmt.Sprintf("accepted connection %d (%s) read %q, its client sent %q", i, rcalls[i], core.Trunc(string(got[i]), 40), core.Trunc(string(pay(i, "up")), 40))
+			}
+			if o.postErr == "" && o.serverDone && rcalls[i] != calls[i] {
+				o.postErr = fmt.Sprintf("accepted connection %d reports %q, dialled as %q", i, rcalls[i], calls[i])
+			}
+		}
+	}
+}
+
+var c15Servers = []string{"never-accepts", "silent", "partial-prompt", "garbage-no-cr", "callsign-then-silence", "closes-at-once", "dribbles", "callsign-password-then-silence", "wrong-prompts", "garbage-lines-every-0.6T", "slow-prompts-0.8T"}
 
 func c15Deadline(sc c15Scn, o *c15Obs) func() {
 	const T = 300 * time.Millisecond
@@ -211,6 +295,16 @@ func c15Deadline(sc c15Scn, o *c15Obs) func() {
 				}
 			case "wrong-prompts":
 				c.Write([]byte("Welcome\rLogin please\r"))
+			case "garbage-lines-every-0.6T": // complete lines, each well inside the timeout, together far beyond it
+				for k := 0; k < 8; k++ {
+					vtime.Sleep(T * 6 / 10)
+					c.Write([]byte("please wait...\r"))
+				}
+			case "slow-prompts-0.8T": // genuine prompts, the second one 1.6 T after the connect
+				vtime.Sleep(T * 8 / 10)
+				c.Write([]byte("Callsign :\r"))
+				vtime.Sleep(T * 8 / 10)
+				c.Write([]byte("Password :\r"))
 			}
 			vs.WaitUntil("forever", func() bool { return false })
 		})
@@ -247,6 +341,10 @@ func c15Deadline(sc c15Scn, o *c15Obs) func() {
 }
 
 func (sc c15Scn) describe() string {
+	if sc.Kind == "two-sessions" {
+		_, seg := c15Seg(sc.Seg, 0)
+		return fmt.Sprintf("two overlapping sessions on one listener, payload %d seg=%s readChunk=%d", sc.PayloadC, seg, sc.Read)
+	}
 	if sc.Kind == "stream" {
 		_, seg := c15Seg(sc.Seg, 0)
 		return fmt.Sprintf("stream call=%q payloads c=%d s=%d seg=%s via=%d idlePastDeadline=%v readChunk=%d", core.Trunc(c15Calls[sc.Call], 20), sc.PayloadC, sc.PayloadS, seg, sc.Via, sc.IdlePast, sc.Read)
@@ -269,6 +367,17 @@ func c15Judge(sc c15Scn, o *c15Obs, res *vs.Result) (string, string) {
 		// (no deadline survives that) - such schedules are judged for "never returns" and panics only
 		if o.dialReturned > T && !res.TimerFirstTaken() {
 			return "dial-returns-late|" + c15Servers[sc.Server], fmt.Sprintf("returned at %v, deadline %v", o.dialReturned, T)
+		}
+		return "", ""
+	}
+	if sc.Kind == "two-sessions" {
+		switch {
+		case o.dialErr != nil || o.acceptErr != nil:
+			return "login-fails|two-sessions", fmt.Sprintf("dial: %v accept: %v", o.dialErr, o.acceptErr)
+		case res.Outcome != "done":
+			return "payload-lost|two-sessions", fmt.Sprintf("%s: %+v", res.Outcome, res.Blocked)
+		case o.postErr != "":
+			return "payload-altered|two-sessions", o.postErr
 		}
 		return "", ""
 	}
@@ -309,6 +418,9 @@ func C15(args []string) {
 	harness := func(sc c15Scn) func() {
 		if sc.Kind == "stream" {
 			return c15Stream(sc, &o)
+		}
+		if sc.Kind == "two-sessions" {
+			return c15Two(sc, &o)
 		}
 		return c15Deadline(sc, &o)
 	}
@@ -354,6 +466,13 @@ func C15(args []string) {
 			}
 		}
 	}
+	for _, seg := range []int{0, 1, 3} {
+		for _, pl := range []int{1, 2} {
+			for _, chunk := range []int{0, 3} {
+				scns = append(scns, c15Scn{Kind: "two-sessions", PayloadC: pl, Seg: seg, Read: chunk})
+			}
+		}
+	}
 	for sv := range c15Servers {
 		for via := 0; via < 6; via++ {
 			scns = append(scns, c15Scn{Kind: "deadline", Server: sv, Via: via})
@@ -367,9 +486,9 @@ func C15(args []string) {
 		sc := scns[i]
 		// stream scenarios have no time-dependent behaviour of their own: timers fire only when
 		// every thread is blocked (a dial deadline that expires early is legitimate, not a finding)
-		e := &vs.Explorer{Harness: harness(sc), Mode: vs.Chess, Cfg: vs.Config{Horizon: time.Minute, MaxSteps: 20000, NoTimerFirst: sc.Kind == "stream"}, MaxExec: 60000}
+		e := &vs.Explorer{Harness: harness(sc), Mode: vs.Chess, Cfg: vs.Config{Horizon: time.Minute, MaxSteps: 20000, NoTimerFirst: sc.Kind != "deadline"}, MaxExec: 60000}
 		maxBound := maxBound
-		if sc.Kind == "stream" {
+		if sc.Kind != "deadline" {
 			maxBound-- // preemption bound 1 (thorough 2); byte-wise segmentation makes these long
 			if sc.Seg == 1 && (sc.PayloadC == 3 || sc.PayloadS == 3) && maxBound > 1 {
 				maxBound = 1
